@@ -1666,6 +1666,72 @@ func derivesFromSplitOfHeader(p *Program, v ssa.Value, name string, rq ssa.Value
 
 // behindHeaderLoop: grant g can only be reached through the exhaustion exit of the loop that
 // contains the header check (or without entering the loop at all).
+// singleElementChecked: the path knows that the header holds no separator (so it is its own single element) and
+// passes the same validity predicate, answered true, on the whole header (or a trim of it).
+func singleElementChecked(p *Program, pa cfgPath, hdr ssa.Value, check *ssa.Call) bool {
+	noSep := false
+	for f := range pa.Facts {
+		switch x := f.Cond.(type) {
+		case *ssa.Call:
+			if n := calleeName(&x.Call); (n == "strings.Contains" || n == "strings.ContainsRune" || n == "strings.ContainsAny") && !f.Pol && strip(x.Call.Args[0]) == hdr {
+				if isCommaConst(x.Call.Args[1]) {
+					noSep = true
+				}
+			}
+		case *ssa.BinOp:
+			call, ok := strip(x.X).(*ssa.Call)
+			if !ok {
+				continue
+			}
+			n := calleeName(&call.Call)
+			if (n != "strings.Index" && n != "strings.IndexByte" && n != "strings.IndexRune" && n != "strings.IndexAny") || strip(call.Call.Args[0]) != hdr || !isCommaConst(call.Call.Args[1]) {
+				continue
+			}
+			k, ok := constInt(x.Y)
+			if !ok {
+				continue
+			}
+			op := x.Op
+			if !f.Pol {
+				op = complementOp[op]
+			}
+			if (op == token.LSS && k == 0) || (op == token.EQL && k == -1) || (op == token.LEQ && k == -1) {
+				noSep = true
+			}
+		}
+	}
+	if !noSep {
+		return false
+	}
+	for f := range pa.Facts {
+		call, ok := f.Cond.(*ssa.Call)
+		if !ok || !f.Pol || call == check || call.Call.StaticCallee() == nil || call.Call.StaticCallee() != check.Call.StaticCallee() {
+			continue
+		}
+		for _, a := range call.Call.Args {
+			for _, src := range p.sources(a, provDefault) {
+				if strip(src) == hdr {
+					return true
+				}
+				if tc, ok := strip(src).(*ssa.Call); ok && strings.HasPrefix(calleeName(&tc.Call), "strings.Trim") && strip(tc.Call.Args[0]) == hdr {
+					return true
+				}
+			}
+		}
+	}
+	return false
+}
+
+func isCommaConst(v ssa.Value) bool {
+	if s, ok := constStr(v); ok {
+		return s == ","
+	}
+	if n, ok := constInt(v); ok {
+		return n == ','
+	}
+	return false
+}
+
 func behindHeaderLoop(p *Program, fn *ssa.Function, check *ssa.Call, g ssa.Instruction) (bool, string) {
 	cyc := blocksOnCycles(fn)
 	body := check.Block()
@@ -1720,7 +1786,7 @@ func behindHeaderLoop(p *Program, fn *ssa.Function, check *ssa.Call, g ssa.Instr
 			if pa.has(done) && pa.has(header) {
 				continue
 			}
-			if !emptyStringFact(pa.Facts, hdr) {
+			if !emptyStringFact(pa.Facts, hdr) && !singleElementChecked(p, pa, hdr, check) {
 				return false, "a path reaches the grant without running the header loop although the request may carry Access-Control-Request-Headers (the test that skips the loop is not 'the header is empty')"
 			}
 		}
